@@ -105,6 +105,31 @@ def stale_flush(ops):
     return False
 
 
+def topo_wf(topo, mod):
+    """the hypothesis [wf] of the C08 liveness theorems, on the hierarchy read back from the real module:
+    every buffer is some stream's task queue or one of hierarch_queues[1..]; parents are buffers or the system queue"""
+    if mod not in HB:
+        return True
+    try:
+        parts = [p.strip() for p in topo.split(";")]
+        n = int(parts[0].split()[1])
+        sizes = [int(x) for x in parts[1].split()]
+        parents = [int(x) for x in parts[2].split()]
+        tq = [int(x) for x in parts[3].split()]
+        chains = [[int(y) for y in w.split(",") if y != ""] for w in parts[4].split()]
+    except (ValueError, IndexError):
+        return False
+    nb = len(sizes)
+    if len(parents) != nb or len(tq) != n or len(chains) != n or nb == 0:
+        return False
+    if any(not (-1 <= p < nb) for p in parents) or any(not 0 <= b < nb for b in tq + [b for c in chains for b in c]):
+        return False
+    reach = set(tq)
+    for c in chains:
+        reach.update(c[1:])
+    return reach == set(range(nb))
+
+
 class SchedCheck(Check):
     comp = "sched"
     per_check_bin = True
@@ -160,6 +185,10 @@ class SchedCheck(Check):
                 break
             topo = lines[0]
             lines = lines[1:]
+            if not topo_wf(topo, mod):
+                for i in todo:
+                    res[i] = "<buffer hierarchy not well formed: %s>" % topo[:200]
+                break
             for i, l in zip(todo, lines):
                 res[i] = l
             if len(lines) >= len(todo):
